@@ -4,6 +4,8 @@ by the harness, of the implementation).  Each is listed in known_findings.txt.
 -/
 import WpModel.Model.PdfZoom
 import WpModel.Model.ImageCache
+import WpModel.Model.DiskCache
+import WpModel.Model.WriteState
 
 namespace Wp.Witness.C19
 open Wp Wp.CopyPages Wp.PdfZoom
@@ -39,5 +41,42 @@ theorem cache_ignores_options :
   decide
 
 end cache
+
+section state
+open Wp.WriteState Wp.CopyPages
+
+/-- Page 1 links to an anchor `b` that sits on page 2.  Writing the whole document (PDF 1) stores an annotation on
+the link's box; writing then the copy of page 1 alone (PDF 2: `b` is not anchored, `resolve_links` drops the link)
+still tags the box as `Link`, with the annotation object of PDF 1.  Writing the copy first tags nothing.  (The
+unrestricted `write_tags_current` is therefore false: known finding `stale-link-annotation`.) -/
+theorem stale_annotation_after_full_write :
+    let page1 := [(⟨7, .internal, "b"⟩ : BoxLink)]
+    let full := write 1 ["b"] page1 []
+    (write 2 [] page1 full.2).1 = [(7, 1)] ∧ (write 2 [] page1 []).1 = [] := by decide
+
+/-- An image of 64 × 32 embedded twice at 32 × 16 (`dpi`): the second call re-encodes the thumbnail stored by the
+first (generation 2 instead of 1); used afterwards at ratio 1 the object declares 64 × 32 with 32 × 16 data.  A fresh
+image gives generation 1 / original data.  (Known finding `dpi-thumbnail-replaces-source`.) -/
+theorem thumbnail_replaces_source :
+    (getXObjects (fresh 64 32) [some (32, 16), some (32, 16), none]).map (fun x => (x.width, x.height, x.data)) =
+      [(32, 16, ⟨1, 32, 16⟩), (32, 16, ⟨2, 32, 16⟩), (64, 32, ⟨2, 32, 16⟩)] ∧
+    (getXObjects (fresh 64 32) [none]).map (fun x => (x.width, x.height, x.data)) = [(64, 32, ⟨0, 64, 32⟩)] := by
+  decide
+
+end state
+
+section disk
+open Wp.ImageCache Wp.DiskCache
+
+/-- The discipline hypothesis of `C19.disk_refines_dict` is necessary: an object stored under `k`, then bytes under the
+same `k` — a dict answers the bytes, `DiskCache.__getitem__` still answers the object (memory is looked up first).
+Not reachable through `get_image_from_uri` (`C19.getImage_stores`), hence not a finding; replayed on the real class by
+the `disk-cache` correspondence (`mixed-kinds` cases). -/
+theorem diskcache_stale_object :
+    let ops : List (String × Entry) := [("k", .image none), ("k", .bytes (.orig 1))]
+    (getItem (ops.foldl (fun d e => setItem d e.1 e.2) DiskCache.empty) "k").toOption = some (.image none) ∧
+    lookup (ops.foldl (fun c e => ImageCache.insert c e.1 e.2) []) "k" = some (.bytes (.orig 1)) := by decide
+
+end disk
 
 end Wp.Witness.C19
